@@ -186,6 +186,57 @@ def check(model, rep):
                'returned total is the sum of %s%s' % (got, (' and of ' + str(strange[:2])) if strange else ''), line=pth.ret_line)
     rep.floor('R11.3', 'static solves in carryMassCalc', n_solves, 1)
 
+    # ---------------------------------------------------------------- R11.5
+    rep.rule('R11.5', 'centres of gravity on a leg: getActuatorLoc(i, "t" / "b") is the leg\'s own top / bottom joint moved by exactly the configured '
+                      'offset along the unit direction to the other joint (never a function of the current leg length)')
+    from ..engine.paths import paths_of
+    from ..engine import tv as _tv
+    gal = sp.methods.get('getActuatorLoc')
+    if gal is None:
+        raise AnalysisError('anchor vanished: SP.getActuatorLoc')
+    num_p, kind_p = gal.params[1], gal.params[2]
+
+    TOP, BOT = '_top_joints_space', '_bottom_joints_space'
+    want = {'t': (TOP, BOT, 'self._act_shaft_grav_center'), 'b': (BOT, TOP, 'self._act_motor_grav_center')}
+
+    def joint_of(text, own, other):
+        """the expression is built from column `num` of the joint table `own` alone"""
+        e = ast.parse(text, mode='eval').body
+        fields = {x.attr for x in ast.walk(e) if isinstance(x, ast.Attribute) and isinstance(x.value, ast.Name) and x.value.id == 'self'}
+        cols = [x for x in ast.walk(e) if isinstance(x, ast.Subscript) and isinstance(x.value, ast.Attribute) and x.value.attr == own]
+        return fields == {own} and bool(cols) and all(isinstance(x.slice, ast.Tuple) and len(x.slice.elts) == 2 and norm_text(x.slice.elts[1]) == num_p for x in cols)
+    seen = set()
+    for pth in paths_of(gal.node, gal.params):
+        if pth.kind != 'return' or pth.ret_src is None:
+            continue
+        kinds = [k_ for k_ in want if pth.facts.get("%s=='%s'" % (kind_p, k_)) is True]
+        if len(kinds) != 1:
+            continue
+        k_ = kinds[0]
+        seen.add(k_)
+        rt = ast.parse(pth.ret_src, mode='eval').body
+        ok = isinstance(rt, ast.Call) and norm_text(rt.func).split('.')[-1] == 'getUnitVec' and len(rt.args) == 3 and not rt.keywords
+        got = tuple(norm_text(a_) for a_ in rt.args) if ok else ()
+        rep.ob('R11.5', gal, "getActuatorLoc(i, '%s') = getUnitVec(own joint, other joint of leg i, configured offset)" % k_,
+               ok and joint_of(got[0], want[k_][0], want[k_][1]) and joint_of(got[1], want[k_][1], want[k_][0]) and got[2] == want[k_][2],
+               ("the '%s' location is %s: the centre of gravity is not at the configured distance %s from the %s joint of leg i towards its other joint "
+                "(e.g. clamped to the current leg length: on short legs the weight then acts somewhere else than where the mass is)"
+                % (k_, (norm_text(rt)[:160]), want[k_][2], 'top' if k_ == 't' else 'bottom')), line=pth.ret_line)
+    rep.ob('R11.5', gal, "paths for 't' and 'b' found", seen == {'t', 'b'}, 'paths found for %s' % sorted(seen), shape=True)
+    guv = model.func('basic_robotics.general.faser_general', 'getUnitVec')
+    res = _tv.fi_matches_spec(model, guv, """
+        def getUnitVec(a, b, distance=1.0, return_dist=False):
+            va = np.array([a[0], a[1], a[2]])
+            d = np.array([b[0], b[1], b[2]]) - va
+            n = ling.norm(d)
+            pos = va + (d / n) * distance
+            if return_dist:
+                return tm([pos[0], pos[1], pos[2], 0, 0, 0]), n
+            return tm([pos[0], pos[1], pos[2], 0, 0, 0])
+        """)
+    rep.ob('R11.5', guv, 'getUnitVec = first point + unit(second - first) * distance', res[0],
+           'getUnitVec does not return the first point moved by `distance` along the unit vector to the second: ' + res[1])
+
     # ---------------------------------------------------------------- R11.4
     rep.rule('R11.4', 'Robot routing: jacobian() = pinv(inverseJacobian()), statics through jacobian / jacobianBody (C06 table); SP defines inverseJacobian')
     robot = model.cls(ROBOT, 'Robot')
